@@ -921,6 +921,12 @@ type pkgRef struct{ p *types.Package }
 func (env *SpecEnv) pkgObject(p *types.Package, name string) (SV, bool) {
 	o := p.Scope().Lookup(name)
 	if o == nil {
+		if alt := env.vc.eng.renamedPkgObject(p, name); alt != "" {
+			o = p.Scope().Lookup(alt)
+			name = alt
+		}
+	}
+	if o == nil {
 		return SV{}, false
 	}
 	vc := env.vc
@@ -1684,6 +1690,11 @@ func (env *SpecEnv) lookupFnIdent(name string) (*ssa.Function, bool) {
 	}
 	if fn := env.pkg.Func(name); fn != nil {
 		return fn, true
+	}
+	if alt := env.vc.eng.renamedPkgObject(env.pkg.Pkg, name); alt != "" {
+		if fn := env.pkg.Func(alt); fn != nil {
+			return fn, true
+		}
 	}
 	return nil, false
 }
